@@ -203,7 +203,7 @@ def r3(F, R):
     kb = A.closure_of_operand(F, co, t_m["args"][1])
     if kb is None:
         raise Unverifiable("mapping closure")
-    nested = F.nested(kb)
+    nested = roles.family(F, kb)   # the mapping closure, its closures, and private helper fns it hands the feature to
     # writes to gherkin fields
     writes = set()
     for nb in nested:
